@@ -182,6 +182,42 @@ Theorem C12_mixed_adv_error_example :
 Proof. exact zx_result. Qed.
 Print Assumptions C12_mixed_adv_error_example.
 
+(* Input level: a list of standard batches that satisfy the hypotheses of C12_succeeds (valid in the Arith
+   sense, header valid, trace numbers carrying the ODFI, totals within the file limit) and of ADV batches that
+   satisfy those of C12_succeeds_adv (header valid, at most 9998 ADV entries in all), under the category rule,
+   with at least one batch of each kind: every consolidated batch passes its Create, so an ADV batch stands next
+   to a standard batch in the new file and File.Create refuses it — FlattenBatches returns that error for every
+   processing order and map order ([sa_file]: each batch is a standard batch under a non-ADV header or an ADV
+   batch under an ADV header) *)
+Theorem C12_mixed_adv_input : forall hd sp ip ap inf inp r,
+  sa_file hd inp ->
+  (exists b, In b inp /\ b_entries b <> nil) -> (exists b, In b inp /\ b_adv b <> nil) ->
+  Forall traces_nodup inp ->
+  Forall (fun b => hd_adv (hd (b_sig b)) = false -> Arith.validate_batch GA (f_batch GA (hp_of hd) (fp_of sp) b) = Arith.ROk) inp ->
+  Forall (hdr_pair hd) (ids inp) ->
+  Forall (fun p => hd_adv (hd (fst p)) = true /\ hd_ok (hd (fst p)) = true) (adv_ids inp) ->
+  sum_ids (db_e GT sp) inp <= Arith.t_file_limit GA -> sum_ids (cr_e GT sp) inp <= Arith.t_file_limit GA ->
+  BuildIAT.zlen (adv_ids inp) <= 9998 ->
+  cat_rule inp ->
+  flatten_full_spec GA GT GTT hd sp ip ap inf inp r ->
+  fst r = FErrCreate.
+Proof. exact c12_mixed_input. Qed.
+Print Assumptions C12_mixed_adv_input.
+
+(* non-vacuity: the file of C12_mixed_adv_error_example satisfies every hypothesis *)
+Theorem C12_mixed_adv_input_example :
+  sa_file zx_hd zx_inp /\
+  (exists b, In b zx_inp /\ b_entries b <> nil) /\ (exists b, In b zx_inp /\ b_adv b <> nil) /\
+  Forall traces_nodup zx_inp /\
+  Forall (fun b => hd_adv (zx_hd (b_sig b)) = false -> Arith.validate_batch GA (f_batch GA (hp_of zx_hd) (fp_of fx_sp) b) = Arith.ROk) zx_inp /\
+  Forall (hdr_pair zx_hd) (ids zx_inp) /\
+  Forall (fun p => hd_adv (zx_hd (fst p)) = true /\ hd_ok (zx_hd (fst p)) = true) (adv_ids zx_inp) /\
+  sum_ids (db_e GT fx_sp) zx_inp <= Arith.t_file_limit GA /\ sum_ids (cr_e GT fx_sp) zx_inp <= Arith.t_file_limit GA /\
+  BuildIAT.zlen (adv_ids zx_inp) <= 9998 /\
+  cat_rule zx_inp.
+Proof. exact zx_hyps. Qed.
+Print Assumptions C12_mixed_adv_input_example.
+
 (* Valid files never mix: File.Create (C05's model, with createFileADV's IAT guard re-evaluated on the
    regenerated table) never returns a file that holds an ADV batch next to a standard or IAT batch ... *)
 Theorem C12_create_never_mixed : forall f f',
